@@ -33,7 +33,7 @@ func (l *Lexer) NextToken() token.Token {
 	var tok token.Token
 
 	// l.skipWhitespace()
-	if l.ch == 0 {
+	if l.atEnd() {
 		tok.Literal = ""
 		tok.Type = token.EOF
 		tok.LineNumber = l.curLine
@@ -61,6 +61,11 @@ again:
 	// a token belongs to the line it starts on; reading ahead (the character
 	// after the token may be a newline) must not move it
 	line := l.curLine
+
+	if l.atEnd() {
+		l.readChar()
+		return token.Token{Type: token.EOF, Literal: "", LineNumber: line}
+	}
 
 	switch l.ch {
 	case '=':
@@ -199,7 +204,7 @@ again:
 			tok = l.newToken(token.ILLEGAL)
 			break
 		}
-		for l.ch != 0 {
+		for !l.atEnd() {
 			l.readChar()
 			if l.ch == '\n' || l.ch == '\r' {
 				break
@@ -212,9 +217,6 @@ again:
 		tok = l.newToken(token.LBRACKET)
 	case ']':
 		tok = l.newToken(token.RBRACKET)
-	case 0:
-		tok.Literal = ""
-		tok.Type = token.EOF
 	default:
 		if isLetter(l.ch) {
 			tok.Literal = l.readIdentifier()
@@ -253,6 +255,13 @@ func (l *Lexer) skipWhitespace() {
 	for l.ch == ' ' || l.ch == '\t' || l.ch == '\n' || l.ch == '\r' {
 		l.readChar()
 	}
+}
+
+// atEnd reports whether the input is used up. (readChar leaves a zero byte in
+// ch then, but a zero byte may also be part of the input: it is a character
+// like any other.)
+func (l *Lexer) atEnd() bool {
+	return l.position >= len(l.input)
 }
 
 func (l *Lexer) readChar() {
@@ -302,7 +311,7 @@ func (l *Lexer) readNumber() string {
 
 func (l *Lexer) readString() string {
 	position := l.position + 1
-	for l.ch != 0 {
+	for !l.atEnd() {
 		l.readChar()
 		// check for quote escapes
 		for l.ch == '\\' && l.peekChar() == '"' {
@@ -319,7 +328,7 @@ func (l *Lexer) readString() string {
 
 func (l *Lexer) readBString() string {
 	position := l.position + 1
-	for l.ch != 0 {
+	for !l.atEnd() {
 		l.readChar()
 		if l.ch == '`' {
 			break
@@ -332,7 +341,7 @@ func (l *Lexer) readBString() string {
 func (l *Lexer) readHTML() string {
 	position := l.position
 
-	for l.ch != 0 {
+	for !l.atEnd() {
 		if l.ch == '\\' {
 			rest := l.input[l.readPosition:]
 			if strings.HasPrefix(rest, "\\<%") {
